@@ -60,7 +60,9 @@ RULE = ("case = (timing table, vendor handler present?, tx_ready / rx gap profil
         "the transfer script")
 REQUIRED_BINS = ["std_unimplemented_request", "std_request_one_bit_from_supported", "clear_feature_wrong_recipient",
                  "clear_feature_wrong_feature", "class_request", "vendor_unclaimed", "reserved_type", "vendor_handler_present",
-                 "vendor_handler_absent", "claimed_number_other_type", "claimed_type_other_number", "wlength_zero", "in_with_data",
+                 "vendor_handler_absent", "no_handler_at_all", "handlers_1", "handlers_2", "handlers_3", "skiplist_present",
+                 "skiplist_via_skiplist", "skiplist_via_blacklist", "std_skiplisted", "std_no_standard_handler",
+                 "neighbour_of_extra_handler", "unsupported_neighbour_windex_wlength_flip", "claimed_number_other_type", "claimed_type_other_number", "wlength_zero", "in_with_data",
                  "out_with_data", "plan_out_data_then_in", "plan_out_status_first", "plan_second_in", "plan_bulk_between",
                  "address_nonzero_during_request", "config_nonzero_during_request", "after_abandoned_transfer",
                  "after_unsupported_clear_feature", "after_completed_supported", "after_stalled_supported_request",
@@ -88,10 +90,38 @@ STALL_B, ACK_B, NAK_B = U.pid_byte(U.STALL), U.pid_byte(U.ACK), U.pid_byte(U.NAK
 
 # ------------------------------------------------------------------------------------------------ reference: request class
 
+SKIPS = {   # name -> predicate over the setup bytes: the standard requests the StandardRequestHandler is told to skip
+    "get_status": lambda s: s[1] == 0,
+    "get_config": lambda s: s[1] == 8,
+    "set_config_2": lambda s: s[1] == 9 and (s[2] | (s[3] << 8)) == 2,
+    "string_desc": lambda s: s[1] == 6 and s[3] == 3,
+}
+
+
+class Cfg:
+    """handler configuration of the control endpoint (truthy iff the (vendor, VENDOR_REQ) handler is present)"""
+    def __init__(self, claimed=(), skip=None, skip_kw="skiplist", standard=True):
+        self.claimed, self.skip, self.skip_kw, self.standard = set(claimed), skip, skip_kw, standard
+
+    def __bool__(self):
+        return (2, VENDOR_REQ) in self.claimed
+
+    def __repr__(self):
+        return "Cfg(claimed=%s skip=%s/%s standard=%s)" % (sorted(self.claimed), self.skip, self.skip_kw, self.standard)
+
+
 def classify_request(s, vendor_present):
-    """-> ('supported', name) | ('unsupported', class-bin)  from the eight setup bytes only (USB 2.0 table 9-2 .. 9-4)."""
+    """-> ('supported', name) | ('unsupported', class-bin)  from the eight setup bytes only (USB 2.0 table 9-2 .. 9-4)
+    and the handler configuration (which (type, bRequest) pairs are claimed, which standard requests are skipped)."""
+    cfg = vendor_present if isinstance(vendor_present, Cfg) else Cfg([(2, VENDOR_REQ)] if vendor_present else [])
     typ, recipient = (s[0] >> 5) & 3, s[0] & 0x1F
     req, value = s[1], s[2] | (s[3] << 8)
+    if (typ, req) in cfg.claimed:
+        return "supported", "vendor_claimed"
+    if typ == 0 and not cfg.standard:
+        return "unsupported", "std_no_standard_handler"
+    if typ == 0 and cfg.skip and SKIPS[cfg.skip](s):
+        return "unsupported", "std_skiplisted"
     if typ == 0:
         if req == 1:
             if recipient != 2:
@@ -102,8 +132,6 @@ def classify_request(s, vendor_present):
         if req in STD_SUPPORTED:
             return "supported", "std_%d" % req
         return "unsupported", "std_unimplemented_request"
-    if typ == 2 and req == VENDOR_REQ and vendor_present:
-        return "supported", "vendor_claimed"
     return "unsupported", {1: "class_request", 2: "vendor_unclaimed", 3: "reserved_type"}[typ]
 
 
@@ -117,6 +145,39 @@ def gen_unsupported(rng, vendor_present, res):
     recipient = rng.choice([0, 0, 1, 2, 2, 3, rng.randrange(32)])
     value = rng.choice([0, 0, 1, 2, 0x100, 0x200, 0x300, rng.randrange(1 << 16)])
     index = rng.choice([0, 0, 1, 0x81, 0x01, 0x80, rng.randrange(1 << 16)])
+    cfg = vendor_present
+    if isinstance(cfg, Cfg) and cfg.skip and rng.random() < 0.22:
+        # a standard request the StandardRequestHandler was told to skip and nobody else claims: the fallback must STALL it
+        s = {"get_status": U.setup_bytes(rng.choice([0x80, 0x81, 0x82]), 0, 0, rng.choice([0, 0x81]), 2),
+             "get_config": U.setup_bytes(0x80, 8, 0, 0, 1),
+             "set_config_2": U.setup_bytes(0x00, 9, 2, 0, 0),
+             "string_desc": U.setup_bytes(0x80, 6, 0x0300 | rng.choice([0, 1, 2]), rng.choice([0, 0x0409]), rng.choice([2, 4, 255]))}[cfg.skip]
+        return s, classify_request(s, cfg)[1]
+    if isinstance(cfg, Cfg) and len(cfg.claimed) >= 2 and rng.random() < 0.12:
+        # one bit / the type next to a request one of the extra handlers claims
+        typ, req = rng.choice(sorted(cfg.claimed))
+        if rng.random() < 0.5:
+            req ^= 1 << rng.randrange(8)
+        else:
+            typ = rng.choice([t for t in (1, 2, 3) if t != typ])
+        s = U.setup_bytes(direction | (typ << 5) | rng.choice([0, 1, 2]), req, value, index, rng.choice([0, 0, wlen]))
+        c = classify_request(s, cfg)
+        if c[0] == "unsupported":
+            res.bin("neighbour_of_extra_handler")
+            return s, c[1]
+    if r < 0.08:
+        # one bit anywhere (also wIndex / wLength) away from a well-known request the device does NOT support
+        for _ in range(50):
+            base = bytearray(rng.choice([
+                U.setup_bytes(0x02, 3, 0, 0x81, 0), U.setup_bytes(0x00, 1, 1, 0, 0), U.setup_bytes(0x00, 3, 1, 0, 0),
+                U.setup_bytes(0x82, 12, 0, 0x81, 2), U.setup_bytes(0x81, 10, 0, 0, 1), U.setup_bytes(0x01, 11, 0, 0, 0),
+                U.setup_bytes(0x00, 7, 0x0100, 0, 18), U.setup_bytes(0x02, 1, 1, 0x81, 0)]))
+            i = rng.choice([4, 4, 5, 6, 6, 7, 0, 1, 2])
+            base[i] ^= 1 << rng.randrange(8)
+            cls = classify_request(bytes(base), vendor_present)
+            if cls[0] == "unsupported":
+                res.bin("unsupported_neighbour_windex_wlength_flip" if i >= 4 else "unsupported_neighbour_other_flip")
+                return bytes(base), cls[1]
     if r < 0.25:
         # exactly one field / one bit away from a request the device supports
         for _ in range(50):
@@ -168,7 +229,8 @@ def gen_unsupported(rng, vendor_present, res):
             res.bin("claimed_type_other_number")
     s = U.setup_bytes(direction | (typ << 5) | recipient, req, value, index, wlen)
     cls = classify_request(s, vendor_present)
-    assert cls[0] == "unsupported", (s.hex(), cls)
+    if cls[0] != "unsupported":
+        return gen_unsupported(rng, vendor_present, res)      # collided with a claimed (type, bRequest): draw again
     return s, cls[1]
 
 
@@ -238,6 +300,8 @@ def gen_supported(rng, vendor_present, allow_abandon=True):
         s = U.setup_bytes(0x02, 1, 0, rng.choice([0x81, 0x81, 0x01, 0x82]), 0)
     else:
         s = U.setup_bytes(0x40, VENDOR_REQ, rng.randrange(1 << 16), rng.randrange(1 << 16), 0)
+    if classify_request(s, vendor_present)[0] != "supported":
+        return gen_supported(rng, vendor_present, allow_abandon)        # e.g. skiplisted in this configuration
     abandon = None
     if allow_abandon and rng.random() < 0.22:
         abandon = rng.choice(["after_setup", "after_setup", "after_first_data", "no_ack"])
@@ -264,11 +328,15 @@ def _build(rng, timing, vendor_present):
             return Module()
 
     class VendorHandler(USBRequestHandler):
-        """claims exactly (type = vendor, bRequest = VENDOR_REQ); no data stage: ZLP in the status stage"""
+        """claims exactly one (type, bRequest) pair; no data stage: ZLP in the status stage"""
+        def __init__(self, typ=2, req=VENDOR_REQ):
+            super().__init__()
+            self.typ, self.req = typ, req
+
         def elaborate(self, platform):
             m = Module()
             i = self.interface
-            mine = (i.setup.type == 2) & (i.setup.request == VENDOR_REQ)
+            mine = (i.setup.type == self.typ) & (i.setup.request == self.req)
             m.d.comb += i.claim.eq(mine)
             with m.If(mine):
                 with m.If(i.status_requested):
@@ -297,9 +365,21 @@ def _build(rng, timing, vendor_present):
                     e.bEndpointAddress = a
                     e.wMaxPacketSize = 8
                     e.bmAttributes = USBTransferType.BULK
-    ep0 = dev.add_standard_control_endpoint(d)
-    if vendor_present:
-        ep0.add_request_handler(VendorHandler())
+    cfg = vendor_present
+    if not cfg.standard:
+        ep0 = dev.add_control_endpoint()                 # no handler at all: everything goes to the fallback
+    elif cfg.skip:
+        luna_pred = {"get_status": lambda su: su.request == 0, "get_config": lambda su: su.request == 8,
+                     "set_config_2": lambda su: (su.request == 9) & (su.value == 2),
+                     "string_desc": lambda su: (su.request == 6) & (su.value[8:16] == 3)}[cfg.skip]
+        import warnings
+        with warnings.catch_warnings():
+            warnings.simplefilter("ignore")
+            ep0 = dev.add_standard_control_endpoint(d, **{cfg.skip_kw: [luna_pred]})
+    else:
+        ep0 = dev.add_standard_control_endpoint(d)
+    for typ, req in sorted(cfg.claimed):
+        ep0.add_request_handler(VendorHandler(typ, req))
     bulk = [USBStreamInEndpoint(endpoint_number=n, max_packet_size=8) for n in (1, 2)]
     for e in bulk:
         dev.add_endpoint(e)
@@ -312,7 +392,20 @@ def _build(rng, timing, vendor_present):
 
 def run_case(rng, tier, res):
     timing = rng.choice(["fs12", "fs12", "fs60"])
-    vendor_present = rng.random() < 0.5
+    # handler configuration: 0-3 extra handlers next to the standard one (or no handler at all), optional skiplist
+    r0 = rng.random()
+    if r0 < 0.07:
+        vendor_present = Cfg(standard=False)
+        res.bin("no_handler_at_all")
+    else:
+        extra = rng.choice([[], [], [(2, VENDOR_REQ)], [(2, VENDOR_REQ)], [(2, VENDOR_REQ), (1, 0x21)],
+                            [(2, VENDOR_REQ), (1, 0x21), (2, VENDOR_REQ ^ 1)], [(1, 0x21), (3, 0x07), (2, 0x43)]])
+        skip = rng.choice([None, None, "get_status", "get_config", "set_config_2", "string_desc"])
+        vendor_present = Cfg(extra, skip, rng.choice(["skiplist", "skiplist", "blacklist"]))
+        res.bin("handlers_%d" % min(3, 1 + len(extra)))
+        if skip:
+            res.bin("skiplist_present")
+            res.bin("skiplist_via_" + vendor_present.skip_kw)
     res.bin("timing_" + timing)
     res.bin("vendor_handler_present" if vendor_present else "vendor_handler_absent")
     ready_profile = rng.choice(["always", "always", ("random", 0.6), ("every", 2), ("bursty", 4, 6)])
@@ -342,10 +435,10 @@ def run_case(rng, tier, res):
                 if classify_request(bytes(s2), vendor_present)[0] == "unsupported":
                     script.append({"what": "unsupported", "cls": classify_request(bytes(s2), vendor_present)[1], "setup": bytes(s2),
                                    "plan": gen_plan(rng, bytes(s2), res)})
-        else:
+        elif vendor_present.standard:
             name, s, abandon = gen_supported(rng, vendor_present, allow_abandon)
             script.append({"what": "supported", "name": name, "setup": s, "abandon": abandon})
-        if rng.random() < 0.22:
+        if vendor_present.standard and rng.random() < 0.22:
             # a supported-type request that *ends with a STALL* (descriptor the device lacks), IMMEDIATELY followed by an
             # unsupported request: the handler must be idle again
             val = rng.choice([0x0600, 0x0600, 0x0700, 0x0F00, 0x0305, 0x0201, 0x2200, 0x0400])
@@ -367,8 +460,8 @@ def run_case(rng, tier, res):
                 script.append({"what": "unsupported", "cls": c2[1], "setup": s2, "plan": plan, "after_stalled": True})
         if rng.random() < 0.15:
             script.append({"what": "bulk"})
-    res.sig(timing, vendor_present, ready_profile, gap_profile, [(t["what"], t.get("setup"), t.get("plan"), t.get("abandon")) for t in script])
-    res.desc = {"timing": timing, "vendor_handler": vendor_present, "ready_profile": ready_profile, "gap_profile": gap_profile,
+    res.sig(timing, repr(vendor_present), ready_profile, gap_profile, [(t["what"], t.get("setup"), t.get("plan"), t.get("abandon")) for t in script])
+    res.desc = {"timing": timing, "handlers": repr(vendor_present), "ready_profile": ready_profile, "gap_profile": gap_profile,
                 "script": [(t["what"], t.get("cls") or t.get("name"), t["setup"].hex() if "setup" in t else None,
                             t.get("plan") or t.get("abandon")) for t in script[:12]]}
 
